@@ -286,6 +286,21 @@ def step (x : Sess) (toks : List String) : Step :=
       { sess := some x, out := s!"r=ok um={um} {fileStr x.fs}" }
   | ["flush"] => simple x "r=ok"
   | ["filehash"] => { sess := some x, out := s!"r=ok {fileStr x.file}" }
+  | ["crashcheck"] =>
+    -- kill the process between two operations: open the file as it is now and compare with the running arena
+    -- (by `C06.boundary` the answer is `ce=1`; it is computed, not assumed)
+    if !x.opts.file then { sess := some x, out := "bad-op" }
+    else if x.mapping != .shared then { sess := some x, out := "r=ok ce=na cr=na" }
+    else
+      let oo : OpenOpts := { sync := c.sync, kind := x.opts.kind, reserved := x.opts.reserved, cap := none, minSeg := x.opts.minSeg,
+                             retries := x.opts.retries, magic := x.opts.magic, create := false, createNew := false }
+      match openFile .mut oo x.file with
+      | (.error e, _) => { sess := some x, out := s!"r=ok ce=0 cr=io:{ioStr e}" }
+      | (.ok r, _) =>
+        let same := r.st.allocated == x.st.allocated && r.st.discarded == x.st.discarded && r.st.minSeg == x.st.minSeg &&
+          flStr r.st == flStr x.st &&
+          fnv1a ((r.st.image r.cfg).extract 0 r.st.allocated) == fnv1a ((x.st.image x.cfg).extract 0 x.st.allocated)
+        { sess := some x, out := s!"r=ok ce={if same then 1 else 0} cr=ok" }
   | ["remove_on_drop", b] =>
     if !x.opts.file then { sess := some x, out := "bad-op" }
     else simple { x with removeOnDrop := b == "1" } "r=ok"
